@@ -124,6 +124,9 @@ type WorkerOpts struct {
 	Tag      string // file name tag for the bitmaps
 	Samples  int    // how many sample cases to print
 	Skip     map[int]bool // runs not to execute (confirmed process-killing runs)
+	// Trace prints the complete outcome of every run ("T i json"), for the
+	// determinism self-test.
+	Trace bool
 }
 
 // Worker executes a share of runs and reports on stdout.  It is the only
@@ -151,6 +154,10 @@ func Worker(d Driver, o WorkerOpts, stdout io.Writer) {
 		t := tape.New(RunSeed(o.Seed, d.ID(), i))
 		c := d.Generate(t, o.Tier)
 		oc := SafeRun(d, c)
+		if o.Trace {
+			b, _ := json.Marshal(oc)
+			fmt.Fprintf(out, "T %d %x %s\n", i, tape.Hash64(compactJSON(c)), b)
+		}
 		if oc.Discard != "" {
 			sum.Discards[oc.Discard]++
 			for k, v := range oc.Counters {
